@@ -38,7 +38,8 @@ RS2LEAN_SPECS = [('words.json', 'WordsSrcGen.lean', 'SrcWords'), ('rdh.json', 'R
                  ('scanner.json', 'ScanSrcGen.lean', 'SrcScan'),
                  ('linkval.json', 'LinkSrcGen.lean', 'SrcLink'),
                  ('linkrdh.json', 'LinkRdhSrcGen.lean', 'SrcLinkRdh'),
-                 ('customstats.json', 'CustomSrcGen.lean', 'SrcCustom')]
+                 ('customstats.json', 'CustomSrcGen.lean', 'SrcCustom'),
+                 ('readerstats.json', 'ReaderStatsSrcGen.lean', 'SrcReaderStats')]
 
 os.makedirs(CACHE, exist_ok=True)
 
